@@ -268,7 +268,7 @@ fn attempt(scn: &C10Scenario, scale: u32, stats: &mut RunStats) -> Result<Option
     let mut step = 0usize;
     for (op_index, op) in scn.ops.iter().enumerate() {
         match op {
-            Op::Pass | Op::Wait { .. } | Op::Faults { .. } | Op::ConfigObject { .. } | Op::FailFastNext => continue,
+            Op::Pass | Op::Wait { .. } | Op::Faults { .. } | Op::ConfigObject { .. } | Op::FailFastNext | Op::GeneratorOverride { .. } => continue,
             _ => {}
         }
         // a non-in-place save of a file that darklua may watch twice yields no event at all
